@@ -6,9 +6,10 @@
    Status in one paragraph.  The full statement "whenever ninja accepts a manifest the graph
    is the documented one" is FALSE of the faithful model ([C12_eval_agrees_refuted]); the
    divergences found are exhibited by concrete manifests (file-level binding shadows the
-   rule's for block-less build statements; phony self-reference filter corrupts input kinds;
-   late re-binding; phantom rspfile bindings; pool resolved before $out exists; scope of the
-   $^ version gate).  What is proved positively: the lookup order of the code, its agreement
+   rule's for block-less build statements; late re-binding; phantom rspfile bindings; pool
+   resolved before $out exists; scope of the $^ version gate).  The phony self-reference
+   filter and the include-cycle crash have been fixed in the code: their theorems are now
+   positive ([C12_phony_selfref_kinds_], [C13_include_self_rejected_]).  What is proved positively: the lookup order of the code, its agreement
    with the documented order when the edge has its own scope and, under an excluding
    hypothesis, when it has not; the $-escape table for all byte strings; scanner bounds; the
    rejection of every documented constraint violation with file and line. *)
@@ -113,17 +114,40 @@ Theorem C12_eval_refuted_file_shadows_rule_ :
 Proof. exact C12_eval_refuted_file_shadows_rule. Qed.
 Print Assumptions C12_eval_refuted_file_shadows_rule_.
 
-(* build p: phony c || p   /   build s: phony || s *)
-Theorem C12_phony_selfref_refuted_ :
-  exists fm,
-    dump_edge_field (fun d => (d_ins d, d_implicit_deps d, d_order_only_deps d)) 0
-                    (eval_manifest fm 4 root) = Some ([bs "c"], O, 1%nat) /\
-    dump_edge_field (fun d => (d_ins d, d_implicit_deps d, d_order_only_deps d)) 0
-                    (spec_manifest fm 4 root) = Some ([bs "c"], O, O) /\
-    dump_edge_field (fun d => (d_ins d, d_implicit_deps d, d_order_only_deps d)) 1
-                    (eval_manifest fm 4 root) = Some ([], O, 1%nat).
-Proof. exact C12_phony_selfref_refuted. Qed.
-Print Assumptions C12_phony_selfref_refuted_.
+(* build p: phony c || p   /   build s: phony || s   /   build t: phony t a || b t c ./t :
+   the legacy self-reference is dropped and every remaining input keeps the kind it was written
+   with; code and reference agree *)
+Theorem C12_phony_selfref_kinds_ :
+  eval_manifest (single root m_phony_selfref) 4 root = spec_manifest (single root m_phony_selfref) 4 root /\
+  dump_edge_field (fun d => (d_ins d, d_implicit_deps d, d_order_only_deps d)) 0
+                  (eval_manifest (single root m_phony_selfref) 4 root) = Some ([bs "c"], O, O) /\
+  dump_edge_field (fun d => (d_ins d, d_implicit_deps d, d_order_only_deps d)) 1
+                  (eval_manifest (single root m_phony_selfref) 4 root) = Some ([], O, O) /\
+  dump_edge_field (fun d => (d_ins d, d_implicit_deps d, d_order_only_deps d)) 2
+                  (eval_manifest (single root m_phony_selfref) 4 root)
+    = Some ([bs "a"; bs "b"; bs "c"], O, 2%nat).
+Proof. exact C12_phony_selfref_kinds. Qed.
+Print Assumptions C12_phony_selfref_kinds_.
+
+(* for all inputs: the filter treats the explicit part and the order-only part separately and
+   the new order-only counter is the length of what is left of the order-only part *)
+Theorem C12_phony_filter_kinds : forall out ins oo,
+  (oo <= length ins)%nat ->
+  let k := (length ins - oo)%nat in
+  phony_filter out ins oo =
+  (remove_bytes out (firstn k ins) ++ remove_bytes out (skipn k ins),
+   length (remove_bytes out (skipn k ins))).
+Proof. exact C12_phony_filter_keeps_kinds. Qed.
+Print Assumptions C12_phony_filter_kinds.
+
+(* documentation of the defect that was fixed (the filter that left order_only_deps_ alone) *)
+Theorem C12_phony_filter_legacy_refuted :
+  phony_filter_legacy (bs "p") [bs "c"; bs "p"] 1 = ([bs "c"], 1%nat) /\
+  phony_filter (bs "p") [bs "c"; bs "p"] 1 = ([bs "c"], O) /\
+  phony_filter_legacy (bs "s") [bs "s"] 1 = ([], 1%nat) /\
+  phony_filter (bs "s") [bs "s"] 1 = ([], O).
+Proof. exact phony_filter_legacy_corrupts_kinds. Qed.
+Print Assumptions C12_phony_filter_legacy_refuted.
 
 Theorem C12_phony_selfref_plain :
   eval_manifest (single root m_phony_selfref_plain) 4 root =
@@ -231,12 +255,12 @@ Proof.
 Qed.
 Print Assumptions C13_lexer_bounds.
 
-(* for every include budget the self-including manifest exhausts it: the recursion of the
-   real code has no bound of its own *)
-Theorem C13_include_self_refuted_ :
-  forall fuel, eval_manifest fm_selfinc (S fuel) root = Err root 1 E_include_fuel.
-Proof. exact C13_include_self_refuted. Qed.
-Print Assumptions C13_include_self_refuted_.
+(* a manifest that includes itself is a parse error (the code's depth limit, 200 nested files),
+   reported at the include statement; the recursion fuel of the model is irrelevant from 201 on *)
+Theorem C13_include_self_rejected_ :
+  forall fuel, eval_manifest fm_selfinc (201 + fuel) root = Err root 1 E_include_depth.
+Proof. exact C13_include_self_rejected. Qed.
+Print Assumptions C13_include_self_rejected_.
 
 (* ================= rejections (file, line, class) ================= *)
 Theorem C12_rejects :
